@@ -353,6 +353,14 @@ def _carry_values(which):
                             if abs(x) <= 90:
                                 xs.append(x)
         xs += [-0.0, 0.0, 89.9999999, -89.9999999, 90.0, -90.0, -1e-12, 1e-12, -1e-7, -0.00000138]
+        # tiny angles of both signs on a log grid: where the sign and the first printed digit are decided
+        for k in range(-90, -19):
+            v = 10.0 ** (k / 10.0)
+            xs += [v, -v]
+        for hund in range(0, 12):                       # every printed hundredth of an arcsecond around zero
+            for frac in (0.0, 0.49, 0.51):
+                v = (hund + frac) * 0.01 / 3600.0
+                xs += [v, -v]
     else:
         for h in (0, 1, 11, 12, 22, 23):
             for m in (0, 1, 29, 58, 59):
@@ -360,6 +368,9 @@ def _carry_values(which):
                     for e in eps_list:
                         xs.append(15.0 * (h + m / 60.0 + (s - e) / 3600.0))
         xs += [0.0, 359.9999999, 359.99999999999, 360.0 - 1e-9, 1e-12, -1e-12, -1e-7, -0.5, -359.9999999, 180.0]
+        for k in range(-90, -19):
+            v = 10.0 ** (k / 10.0)
+            xs += [v, -v, 360.0 - v]
         xs = [x for x in xs if -360 <= x < 360]
     return [float(x) for x in xs]
 
